@@ -124,8 +124,9 @@ def judge_tv(inp, obs, lr):
         return {"expected": {"rows": mv.tolist()}, "observed": obs["rows"], "tags": {"what": "rows"}}
     if not G.proj_equal(obs["img_pt"], G.fv(inp["p"]), 1e-9):
         return {"expected": "base point -> point", "observed": obs["img_pt"], "tags": {"what": "point"}, "property_failure": True}
-    if not G.parallel_pos(obs["img_vec"], obs["vec0"], 1e-9):
-        return {"expected": "base direction -> positive multiple of the vector", "observed": [obs["img_vec"], obs["vec0"]],
+    # the pair (image of e0, image of e1) is (x, v) up to positive scalings and one common sign
+    if not G.same_tangent(obs["img_pt"], obs["img_vec"], G.fv(inp["p"]), obs["vec0"], 1e-9):
+        return {"expected": "base tangent -> the tangent vector (p, v) (same class under (p,v) ~ (-p,-v))", "observed": [obs["img_pt"], obs["img_vec"], obs["vec0"]],
                 "tags": {"what": "direction"}, "property_failure": True}
     if obs["res"] > 1e-9:
         return {"expected": "M J M^T = J", "observed": obs["res"], "tags": {"what": "contract"}, "property_failure": True}
@@ -408,12 +409,11 @@ def run_o_tangent(inp):
 def judge_o_tangent(inp, obs, lr):
     if "exc" in obs:
         return {"expected": "isometries", "observed": obs, "tags": {"exc": obs["exc"]}}
-    if not (G.proj_equal(obs["img_pt"], obs["pa"], 1e-8) and G.parallel_pos(obs["img_vec"], obs["va"], 1e-7)):
-        return {"expected": "base tangent -> (point, positive multiple of vector)", "observed": obs, "tags": {"what": "origin_to"}}
+    if not G.same_tangent(obs["img_pt"], obs["img_vec"], obs["pa"], obs["va"], 1e-7):
+        return {"expected": "base tangent -> the tangent vector (point, positive multiple of the vector, up to one common sign)", "observed": obs, "tags": {"what": "origin_to"}}
     # projectively the same point; the direction must be a positive multiple *on the same sheet*:
     # normalise the sheet by the sign of the time coordinate of the image point
-    s = np.sign(obs["img2_pt"][0]) * np.sign(obs["pb"][0])
-    if not (G.proj_equal(obs["img2_pt"], obs["pb"], 1e-8) and G.parallel_pos(s * np.array(obs["img2_vec"]), obs["vb"], 1e-7)):
+    if not G.same_tangent(obs["img2_pt"], obs["img2_vec"], obs["pb"], obs["vb"], 1e-7):
         return {"expected": "isometry_to carries basepoint and direction", "observed": obs, "tags": {"what": "isometry_to"}}
     if not obs["res"] <= 1e-8:
         return {"expected": "isometry", "observed": obs["res"], "tags": {"what": "form"}}
@@ -635,8 +635,7 @@ def run_o_history(inp):
             p0, d0 = _tv_state(tv)
             img = tv.origin_to(force_oriented=st["fo"]) @ bt
             log.append({"k": k, "op": op, "what": "origin_to: base tangent -> this vector",
-                        "ok": G.proj_equal(np.array(img.point, dtype=float), p0, 1e-7)
-                        and G.parallel_pos(np.sign(np.array(img.point)[0]) * np.sign(p0[0]) * np.array(img.vector, dtype=float), d0, 1e-6)})
+                        "ok": G.same_tangent(np.array(img.point, dtype=float), np.array(img.vector, dtype=float), p0, d0, 1e-6)})
         elif op == "point_along":
             p0, d0 = _tv_state(tv)
             x = tv.normalized().point_along(G.unpack(st["t"]))
@@ -653,9 +652,8 @@ def run_o_history(inp):
             I = tv.isometry_to(other, force_oriented=st["fo"])
             m = np.array(I.proj_data, dtype=float)
             ip, idir = p0 @ m, d0 @ m
-            sg = np.sign(ip[0]) * np.sign(p1[0])
             log.append({"k": k, "op": op, "what": "isometry_to carries this vector to the other",
-                        "ok": G.proj_equal(ip, p1, 1e-7) and G.parallel_pos(sg * idir, d1, 1e-6)})
+                        "ok": G.same_tangent(ip, idir, p1, d1, 1e-6)})
         elif op == "angle":
             p0, d0 = _tv_state(tv)
             v = np.array(st["v"])
